@@ -757,10 +757,22 @@ def check_batch(ctx: Context, rep, rule: str) -> None:
     loops = [n for n in conc.body_nodes() if isinstance(n, ast.While)]
     ok = False
     detail = "<batch loop not found>"
-    FILL = "list(itertools.islice(shard_paths_iterator,file_parallelism))"
+    fill_sources: set[str] = set()
 
     def is_fill(e: ast.AST | None) -> bool:
-        return e is not None and ast.unparse(e).replace(" ", "") == FILL
+        # list(islice(<iterator variable>, file_parallelism))
+        if not (isinstance(e, ast.Call) and dotted(e.func) in ("list", "tuple")
+                and len(e.args) == 1 and isinstance(e.args[0], ast.Call)):
+            return False
+        sl = e.args[0]
+        if not ((dotted(sl.func) or "").endswith("islice") and
+                len(sl.args) == 2 and isinstance(sl.args[0], ast.Name)):
+            return False
+        from sa.norm import canon
+        if canon(conc, sl.args[1]) != "file_parallelism":
+            return False
+        fill_sources.add(sl.args[0].id)
+        return True
 
     for lp in loops:
         b = None
@@ -790,6 +802,18 @@ def check_batch(ctx: Context, rep, rule: str) -> None:
         whole = len(maps) == 1 and len(maps[0].args) == 2 and dotted(
             maps[0].args[1]) == b and "process_and_list" in ast.unparse(
                 maps[0].args[0])
+        # all fills draw from one variable, bound once to an iterator object
+        from sa.rules.common import is_iterator_expr
+        one_source = len(fill_sources) == 1
+        if one_source:
+            src_name = next(iter(fill_sources))
+            binds = [n for n in conc.body_nodes() if isinstance(
+                n, (ast.Assign, ast.AnnAssign)) and dotted(
+                    n.targets[0] if isinstance(n, ast.Assign) else n.target)
+                == src_name and n.value is not None]
+            one_source = bool(binds) and is_iterator_expr(
+                ctx, conc, binds[-1].value)
+        fills_ok = fills_ok and one_source
         ok = whole and fills_ok and not any(isinstance(
             x, (ast.Break, ast.Continue)) for x in ast.walk(lp))
         detail = (f"maps whole batch={whole}, every batch is the next "
